@@ -14,9 +14,11 @@ CONSTANTS
   MaxTx = 3
   MaxRounds = 2
   Signers = {1, 2}
+  Jumps = {}
 INIT InitMC
 NEXT NextMC
 CONSTRAINT Constr
+VIEW View
 INVARIANTS TypeOK SuccessOnlyIfExactEncoding NoSecondUse EffectsAtMostOnce EffectsAccounted
 PROPERTIES FailedOrForeignRemovesWithoutEffects
 CHECK_DEADLOCK FALSE
